@@ -363,13 +363,16 @@ def parabasal(ctx):
 
 
 def distortion(ctx):
+    from ..match import find_seq as _find_seq
     P = ctx.P
     res = Result('DISTORTION', 'distortion = 100 (y_real - y_pred)/y_pred; '
                  'y_pred = const * tan(H theta_max) or const * H theta_max '
                  'with const calibrated on the smallest field', level='proof')
     f = P.func('Distortion._generate_data')
     res.saw(f)
-    for dtype in ('f-tan', 'f-theta'):
+    for dtype, ftype in (('f-tan', 'angle'), ('f-theta', 'angle'),
+                         ('f-tan', 'object_height'),
+                         ('f-theta', 'object_height')):
         sym = Sym()
         appended = {}
 
@@ -386,10 +389,12 @@ def distortion(ctx):
                 return ZERO
             return None
 
-        def choose(test, ev, dtype=dtype):
+        def choose(test, ev, dtype=dtype, ftype=ftype):
             s = unparse(test)
             if 'distortion_type ==' in s:
                 return f"'{dtype}'" in s
+            if 'field_type ==' in s:
+                return f"'{ftype}'" in s
             return None
 
         class E2(Ev):
@@ -417,7 +422,7 @@ def distortion(ctx):
         if v is None or yp is None or yr is None:
             raise AnalysisError('Distortion: data / yp / yr not found')
         if sym.eq(v, C(100) * (yr - yp) / yp):
-            res.ok(f'{dtype}: data = 100 (yr - yp)/yp')
+            res.ok(f'{dtype}, {ftype}: data = 100 (yr - yp)/yp')
         else:
             res.fail(ctx.finding('DISTORTION', f, f.node,
                                  f'{dtype}: distortion is {v}, not '
@@ -435,22 +440,32 @@ def distortion(ctx):
         # yp shape: const * g(H), const = YR[0] / g(1e-10)
         th = A('self.optic.fields.max_field') * A('pi') / C(180)
         eps = Rat.const('0.0000000001')
-        if dtype == 'f-tan':
+        if ftype == 'object_height':
+            # the field is an object height: the paraxial image height is the
+            # object height times the (small-field) magnification, linear in H
+            # whatever projection law is selected for angular fields
+            gH, g0 = A('H'), eps
+        elif dtype == 'f-tan':
             gH = sym.sin(A('H') * th) / sym.cos(A('H') * th)
             g0 = sym.sin(eps * th) / sym.cos(eps * th)
         else:
             gH = A('H') * th
             g0 = eps * th
         g0_alt = sym.sin(eps * th) / sym.cos(eps * th)   # tan(x) ~ x at 1e-10
+        tag = f'{dtype}, {ftype} fields'
         if sym.eq(yp, A('YR[0]') / g0 * gH) or (
-                dtype == 'f-theta' and sym.eq(yp, A('YR[0]') / g0_alt * gH)):
-            res.ok(f'{dtype}: y_pred = y_real(smallest field)/g(eps) * g(H)')
+                dtype == 'f-theta' and ftype == 'angle' and
+                sym.eq(yp, A('YR[0]') / g0_alt * gH)):
+            res.ok(f'{tag}: y_pred = y_real(smallest field)/g(eps) * g(H)')
         else:
             res.fail(ctx.finding(
                 'DISTORTION', f, f.node,
-                f'{dtype}: predicted image height {yp} is not calibrated on '
-                f'the smallest field with the {dtype} law',
-                construct=f'distortion prediction {dtype}'))
+                f'{tag}: predicted image height {yp} is not '
+                f'y_real(smallest field) / g(eps) * g(H) with g(H) = '
+                + ('H (height fields: magnification x object height; a height '
+                   'in mm is not an angle in degrees)'
+                   if ftype == 'object_height' else f'the {dtype} law'),
+                construct=f'distortion prediction {dtype} {ftype}'))
     # unsupported type raises
     if any(isinstance(n, ast.Raise) for n in ast.walk(f.node)):
         res.ok('unknown distortion type raises')
@@ -461,8 +476,13 @@ def distortion(ctx):
         ("delta = np.sqrt((data['xp'] - data['xr']) ** 2 + (data['yp'] - "
          "data['yr']) ** 2)" in s, 'distance between predicted and real'),
         ("rp = np.sqrt(data['xp'] ** 2 + data['yp'] ** 2)" in s and
-         "data['max_distortion'] = np.max(100 * delta / rp)" in s,
-         'relative to the predicted radius, in percent'),
+         bool(_find_seq(g, ['$m = rp > $eps * np.max(rp)',
+                            'np.max(100 * delta[$m] / rp[$m])']) or
+              _find_seq(g, ['$m = rp > 0',
+                            'np.max(100 * delta[$m] / rp[$m])']) or
+              _find_seq(g, ['np.nanmax(100 * delta / rp)'])),
+         'relative to the predicted radius, in percent, over the off-axis '
+         'nodes (0/0 on axis)'),
         ("data['xr'] = np.reshape(self.optic.surface_group.x[-1, :]" in s and
          "data['yr'] = np.reshape(self.optic.surface_group.y[-1, :]" in s,
          'real x / y from the x / y records'),
@@ -610,4 +630,10 @@ def c03_fields(ctx):
     from .C03 import field_wiring as _r
     return _r(ctx)
 
-RULES = [c03_fields, arg_forward_rule, no_stale, records, arg_names_rule, list_space, record_fresh, operand_attr, parabasal, distortion, radii]
+def c03_trace_entry(ctx):
+    """shared with C03: the pupil samples requested are the ones traced
+    (vignetting factors applied exactly once on the way to the generator)"""
+    from .C03 import trace_entry as _r
+    return _r(ctx)
+
+RULES = [c03_trace_entry, c03_fields, arg_forward_rule, no_stale, records, arg_names_rule, list_space, record_fresh, operand_attr, parabasal, distortion, radii]
